@@ -63,6 +63,13 @@ def run(ctx) -> None:
                     if tries and all(g.search([(t.id, "T")], lambda n, x=x: n.id == x.id, blocked=lambda n: n.id == w.id) is None for x in tries):
                         ok = True
             inst = "visit_WatchNode: a cancelled Watch leaves the wait loop without running its body"
+            ta_ = pi.methods.get("_try_activate_node")
+            if not ok and ta_ is not None:
+                # equivalent protection: the only activation site refuses cancelled nodes (checked below as well)
+                ga = cfg_of(ta_)
+                tt = [n for n in ga.nodes if n.kind == "test" and norm(n.ast) == "node.cancelled"]
+                aa = [n for n in ga.nodes if n.kind == "stmt" and any(t.attr == "activated" for t, v, st in assigned_attrs(n.ast))]
+                ok = bool(tt and aa) and ga.search([(tt[0].id, "T")], lambda n: n.id == aa[0].id) is None
             if ok:
                 ctx.ok("R04a", inst)
             else:
